@@ -38,14 +38,24 @@ META = {
 SIG_TYPES = ("NAME", "NUMBER", "STRING", "OP", "FSTRING_START", "FSTRING_MIDDLE", "FSTRING_END", "SEARCH_PATH", "ERRORTOKEN")
 
 
+_hangs = [0]
+
+
+class TooManyHangs(Exception):
+    pass
+
+
 def run_entry(fn):
     """('ok', value) | ('allowed', name) | ('bad', signature, detail)"""
     T = repo_modules()["T"]
     try:
-        with watchdog():
+        # after a few timeouts in this worker the limit drops to 2 s (inputs are tiny: still 1000x slack), so that a
+        # tree that hangs on a whole class of inputs does not turn the search into hours of waiting
+        with watchdog(2.0 if _hangs[0] >= 3 else None):
             v = fn()
         return ("ok", v)
     except SoftTimeout:
+        _hangs[0] += 1
         return ("bad", "hang", {})
     except (SyntaxError, T.TokenError) as e:
         return ("allowed", type(e).__name__)
@@ -67,6 +77,8 @@ def tmp_path():
 
 
 def check(rec, case):
+    if _hangs[0] >= 25 and not case.get("force"):
+        raise TooManyHangs()
     src = case["src"]
     stream = case.get("stream", "?")
     T = repo_modules()["T"]
@@ -159,6 +171,13 @@ def atheris_campaign(rec, ctx, runs, max_len):
 
 
 def search(rec, ctx):
+    try:
+        _search(rec, ctx)
+    except TooManyHangs:
+        rec.notes["search_cut_short"] = "25 soft timeouts in one worker: the remaining streams were skipped (the property is violated anyway)"
+
+
+def _search(rec, ctx):
     seeds = xonsh.xonsh_seeds()
     crng = ctx.rng("corpus")
     corp = [s for _, s in corpus.sample_statements(crng, 30 if ctx.thorough else 3, per_file=40 if ctx.thorough else 20) if len(s) < 1500]
